@@ -299,6 +299,24 @@ class Runtime:
             return
         self._transfer(cur, nxt)
 
+    def env_choice(self, kind, label, options):
+        """An environment answer (short write, short read, ...): option 0 is the default; any other option
+        is a deviation. Returns the chosen option index. Recorded as a point of the running thread."""
+        cur = self.me()
+        if cur is None or self.aborting:
+            return 0
+        idx = len(self.points)
+        pick = 0
+        if idx in self.choices:
+            pick = self.choices[idx]
+            if pick >= len(options):
+                self.replay_error = f"point {idx}: env choice {pick} of {options} at {kind}:{label}"
+                self.verdict = "replay-divergence"
+                self._finish()
+                raise Abort()
+        self.points.append(Point(cur.name, kind, label, list(options), pick, self.exploring))
+        return pick
+
     def block(self, kind, label, pred=None, timeout=None):
         """The running thread blocks until pred() holds or the virtual timeout expires.
         Returns True when woken by the predicate, False on timeout."""
